@@ -272,23 +272,31 @@ pub fn udp_case(seed: u64, case: usize) -> String {
     let rt = tokio::runtime::Builder::new_current_thread().enable_all().build().unwrap();
     let obs = rt.block_on(async move {
         let mut rng = Prng::new(seed ^ (case as u64) << 20);
-        let port = 20_000 + ((seed as u16).wrapping_mul(31).wrapping_add(case as u16 * 7) % 20_000);
-        let srv_addr: SocketAddr = ([127, 0, 0, 1], port).into();
-        let id = chitchat::ChitchatId::new("udp".to_string(), 0, srv_addr);
-        let config = ChitchatConfig {
-            chitchat_id: id,
-            cluster_id: "c".to_string(),
-            gossip_interval: Duration::from_millis(20),
-            listen_addr: srv_addr,
-            seed_nodes: Vec::new(),
-            failure_detector_config: FailureDetectorConfig::default(),
-            marked_for_deletion_grace_period: Duration::from_secs(1000),
-            catchup_callback: None,
-            extra_liveness_predicate: None,
-        };
-        let handle = match spawn_chitchat(config, Vec::new(), &chitchat::transport::UdpTransport).await {
-            Ok(h) => h,
-            Err(_) => return "bind-failed".to_string(),
+        // find a free port (other checks may run concurrently)
+        let mut handle_opt = None;
+        let mut srv_addr: SocketAddr = ([127, 0, 0, 1], 0).into();
+        for attempt in 0..30u64 {
+            let port = 20_000 + ((seed.wrapping_mul(31) + case as u64 * 7 + attempt * 131 + rng.below(5000)) % 30_000) as u16;
+            srv_addr = ([127, 0, 0, 1], port).into();
+            let id = chitchat::ChitchatId::new("udp".to_string(), 0, srv_addr);
+            let config = ChitchatConfig {
+                chitchat_id: id,
+                cluster_id: "c".to_string(),
+                gossip_interval: Duration::from_millis(20),
+                listen_addr: srv_addr,
+                seed_nodes: Vec::new(),
+                failure_detector_config: FailureDetectorConfig::default(),
+                marked_for_deletion_grace_period: Duration::from_secs(1000),
+                catchup_callback: None,
+                extra_liveness_predicate: None,
+            };
+            if let Ok(h) = spawn_chitchat(config, Vec::new(), &chitchat::transport::UdpTransport).await {
+                handle_opt = Some(h);
+                break;
+            }
+        }
+        let Some(handle) = handle_opt else {
+            return "bind-failed".to_string();
         };
         let client = match tokio::net::UdpSocket::bind("127.0.0.1:0").await {
             Ok(c) => c,
@@ -327,7 +335,10 @@ pub fn udp_case(seed: u64, case: usize) -> String {
             down as u8
         )
     });
-    let _ = writeln!(trace, "UDP");
-    let _ = writeln!(trace, "= {obs}");
+    if obs != "bind-failed" {
+        // (no loopback socket available: nothing observed, nothing claimed)
+        let _ = writeln!(trace, "UDP");
+        let _ = writeln!(trace, "= {obs}");
+    }
     trace
 }
